@@ -1,6 +1,7 @@
 package main
 
 import (
+	"go/constant"
 	"go/token"
 	"go/types"
 	"sort"
@@ -331,4 +332,738 @@ func onErrorPathStrict(ci ssa.CallInstruction) bool {
 		return ok && !nonNil(returnOperand(r, idx), r.Block(), 0)
 	})
 	return bad == nil
+}
+
+// ---- E2: a failed durable effect is never turned into success.
+//
+// For every durable call (the set of E1) whose error is tested against nil: from the non-nil
+// edge of that test no return with a constant-nil error is reachable without re-executing the
+// call (a retry).  The frozen exceptions are the idempotent deletes (an object that is already
+// gone) - each confirmed by reading.
+var c17ConvertExempt = map[string]string{}
+
+func runLakeErrNotConverted(c *Ctx, rule string) {
+	p := c.P
+	c.Rule(rule, "a failed durable effect is never turned into success: from the non-nil edge of the test of a durable call's error no return with a constant-nil error is reachable without re-executing the call; the exceptions (idempotent deletes of objects that are already gone) are a frozen table")
+	d := durableSet(p)
+	fns := append([]*ssa.Function{}, p.Funcs...)
+	sort.Slice(fns, func(i, j int) bool { return fns[i].String() < fns[j].String() })
+	for _, fn := range fns {
+		if fn.Blocks == nil || strings.HasSuffix(p.Pos(fn.Pos()), "_test.go") {
+			continue
+		}
+		idx := errIndex(fn.Signature)
+		if idx < 0 {
+			continue
+		}
+		name := constructName(fn)
+		for _, ci := range allCalls(fn) {
+			cc := ci.Common()
+			if errIndex(cc.Signature()) < 0 {
+				continue
+			}
+			durable := isDurablePrimitive(cc) || onPutResult(cc)
+			if g := cc.StaticCallee(); g != nil && !durable {
+				if o := g.Origin(); o != nil {
+					g = o
+				}
+				durable = d[g]
+			}
+			if !durable {
+				continue
+			}
+			v := errValueOf(ci)
+			if v == nil {
+				continue // E1's business
+			}
+			callee := calleeName(cc)
+			if callee == "" {
+				callee = "dynamic:" + short(cc.Value.Type().String())
+			}
+			construct := name + " -> " + callee
+			var bad ssa.Instruction
+			edges := nonNilEdges(v)
+			if len(edges) == 0 {
+				continue
+			}
+			for _, e := range edges {
+				ib, nonNil := e.from, e.to
+				if strings.HasPrefix(calleeBare(cc), "Delete") {
+					if t, neg := notExistTest(ib); t && ((!neg && nonNil == ib.Succs[0]) || (neg && nonNil == ib.Succs[1])) {
+						continue // the idempotent-delete edge itself
+					}
+				}
+				hit := reachAvoidingEdges(fn, ib.Instrs[len(ib.Instrs)-1],
+					func(x ssa.Instruction) bool { return x == ci.(ssa.Instruction) },
+					func(x ssa.Instruction) bool {
+						ret, ok := x.(*ssa.Return)
+						return ok && isNilConst(returnOperand(ret, idx))
+					},
+					func(a, b *ssa.BasicBlock) bool {
+						if a == ib {
+							return b == nonNil
+						}
+						// idempotent delete: the edge on which errors.Is(err, fs.ErrNotExist) holds
+						if strings.HasPrefix(calleeBare(cc), "Delete") {
+							if t, neg := notExistTest(a); t && len(a.Succs) == 2 {
+								if (!neg && b == a.Succs[0]) || (neg && b == a.Succs[1]) {
+									return false
+								}
+							}
+						}
+						return true
+					})
+				if hit != nil {
+					bad = hit
+				}
+			}
+			if bad == nil {
+				c.OK(rule, construct, ci.Pos(), "the failing edge reaches no successful return")
+				continue
+			}
+			if r, ok := c17ConvertExempt[construct]; ok {
+				c.OK(rule, construct, ci.Pos(), "exempt: "+r)
+				continue
+			}
+			c.Fail(rule, construct, bad.Pos(), "a failure of "+callee+" can end in a nil return ("+p.Pos(bad.Pos())+"): the failed durable effect is acknowledged as done")
+		}
+	}
+	c.Floor(rule, 30)
+}
+
+// notExistTest: block a ends in `if errors.Is(e, fs.ErrNotExist)` (neg: `if !errors.Is(..)`).
+func notExistTest(a *ssa.BasicBlock) (is, neg bool) {
+	if len(a.Instrs) == 0 {
+		return
+	}
+	iff, ok := a.Instrs[len(a.Instrs)-1].(*ssa.If)
+	if !ok {
+		return
+	}
+	cond := iff.Cond
+	if u, ok := cond.(*ssa.UnOp); ok && u.Op == token.NOT {
+		neg = true
+		cond = u.X
+	}
+	call, ok := cond.(*ssa.Call)
+	if !ok || calleeName(&call.Call) != "errors.Is" || len(call.Call.Args) != 2 {
+		return false, false
+	}
+	if l, ok := stripConv(call.Call.Args[1]).(*ssa.UnOp); ok && l.Op == token.MUL {
+		if g, ok := l.X.(*ssa.Global); ok && g.Name() == "ErrNotExist" && g.Pkg.Pkg.Path() == "io/fs" {
+			return true, neg
+		}
+	}
+	return false, false
+}
+
+type cfgEdge struct{ from, to *ssa.BasicBlock }
+
+// nonNilEdges: the CFG edges on which the error value v (or a local copy of it) is known to be
+// non-nil: the non-nil edge of a nil test, the equal edge of a comparison with a sentinel, the
+// true edge of errors.Is / os.IsExist / os.IsNotExist on it.
+func nonNilEdges(v ssa.Value) []cfgEdge {
+	var out []cfgEdge
+	seen := map[ssa.Value]bool{}
+	addIf := func(cond ssa.Value, onTrue bool) {
+		var walk func(c ssa.Value, onTrue bool)
+		walk = func(c ssa.Value, onTrue bool) {
+			if c.Referrers() == nil {
+				return
+			}
+			for _, r := range *c.Referrers() {
+				switch x := r.(type) {
+				case *ssa.If:
+					b := x.Block()
+					if onTrue {
+						out = append(out, cfgEdge{b, b.Succs[0]})
+					} else {
+						out = append(out, cfgEdge{b, b.Succs[1]})
+					}
+				case *ssa.UnOp:
+					if x.Op == token.NOT {
+						walk(x, !onTrue)
+					}
+				}
+			}
+		}
+		walk(cond, onTrue)
+	}
+	var visit func(v ssa.Value)
+	visit = func(v ssa.Value) {
+		if seen[v] || v.Referrers() == nil {
+			return
+		}
+		seen[v] = true
+		for _, r := range *v.Referrers() {
+			switch x := r.(type) {
+			case *ssa.Phi:
+				// a phi merges other values: a test of the phi says nothing about v alone
+			case *ssa.MakeInterface:
+				visit(x)
+			case *ssa.ChangeInterface:
+				visit(x)
+			case *ssa.BinOp:
+				if x.Op != token.EQL && x.Op != token.NEQ {
+					continue
+				}
+				if isNilConst(x.X) || isNilConst(x.Y) {
+					addIf(x, x.Op == token.NEQ)
+				} else {
+					addIf(x, x.Op == token.EQL) // equal to a sentinel: non-nil
+				}
+			case *ssa.Store:
+				if a, ok := x.Addr.(*ssa.Alloc); ok && x.Val == v && !allocEscapes(a) {
+					// single-assignment local: follow its loads only if this is the only store
+					stores := 0
+					for _, ar := range *a.Referrers() {
+						if _, ok := ar.(*ssa.Store); ok {
+							stores++
+						}
+					}
+					if stores == 1 {
+						for _, ar := range *a.Referrers() {
+							if l, ok := ar.(*ssa.UnOp); ok && l.Op == token.MUL {
+								visit(l)
+							}
+						}
+					}
+				}
+			case *ssa.Call:
+				switch calleeName(&x.Call) {
+				case "errors.Is", "os.IsExist", "os.IsNotExist":
+					if len(x.Call.Args) > 0 && stripConv(x.Call.Args[0]) == stripConv(v) {
+						addIf(x, true)
+					}
+				}
+			}
+		}
+	}
+	visit(v)
+	return out
+}
+
+// ---- C01-X1: the ZNG type encoder identifies an external type by the type, never by its number.
+//
+// zngio.Encoder translates types of *any* context into the stream's own context.  Type IDs are
+// only unique inside one zed.Context (every context numbers its complex types from the same
+// base), so a table of the Encoder indexed or keyed by zed.TypeID(t) / t.ID() confuses types of
+// different contexts that share a number: the value is written under another type, with no
+// typedef.  (Tables indexed by IDs of the Encoder's *own* context would be fine; the rule looks
+// only at IDs computed from values that are not produced by the Encoder's context.)
+func runEncoderKeysByType(c *Ctx, rule string) {
+	p := c.P
+	c.Rule(rule, "no table of zngio.Encoder is indexed or keyed by a number obtained from zed.TypeID / Type.ID(): external types are identified by the type value itself (IDs of different contexts collide); witness: Encoder.Lookup reads a map keyed by zed.Type")
+	isID := func(v ssa.Value) bool {
+		call, ok := v.(*ssa.Call)
+		if !ok {
+			return false
+		}
+		cc := call.Common()
+		if cc.IsInvoke() {
+			return cc.Method.Name() == "ID" && namedOf(cc.Value.Type()) == "super.Type"
+		}
+		n := calleeName(cc)
+		return n == "super.TypeID" || (strings.HasPrefix(n, "(*super.Type") && strings.HasSuffix(n, ").ID"))
+	}
+	witness := false
+	n := 0
+	for _, fn := range p.FuncsIn("zio/zngio") {
+		top := fn
+		for top.Parent() != nil {
+			top = top.Parent()
+		}
+		if top.Signature.Recv() == nil || namedOf(top.Signature.Recv().Type()) != "zio/zngio.Encoder" {
+			continue
+		}
+		for _, b := range fn.Blocks {
+			for _, in := range b.Instrs {
+				var key ssa.Value
+				var what string
+				switch x := in.(type) {
+				case *ssa.IndexAddr:
+					key, what = x.Index, "slice index"
+				case *ssa.Index:
+					key, what = x.Index, "index"
+				case *ssa.Lookup:
+					key, what = x.Index, "map key"
+					if mt, ok := x.X.Type().Underlying().(*types.Map); ok && namedOf(mt.Key()) == "super.Type" && fn.Name() == "Lookup" {
+						witness = true
+					}
+				case *ssa.MapUpdate:
+					key, what = x.Key, "map key"
+				default:
+					continue
+				}
+				n++
+				if _, isConst := key.(*ssa.Const); isConst {
+					continue
+				}
+				if dependsOn(key, isID) {
+					c.Fail(rule, constructName(fn)+" "+what+" from a type ID", in.Pos(), "a table of the Encoder is accessed with a "+what+" computed from zed.TypeID/Type.ID(): type IDs of different contexts collide (each context numbers from the same base), so a value whose type comes from a second context is written under the cached type of the first, without a typedef")
+				}
+			}
+		}
+	}
+	if !witness {
+		c.Undecided(rule, "(*zio/zngio.Encoder).Lookup", "witness not found: Encoder.Lookup no longer reads a map keyed by zed.Type")
+	} else {
+		c.OK(rule, "tables of zngio.Encoder", token.NoPos, sprint(n)+" table accesses in Encoder methods, none keyed by a type ID; Lookup is keyed by the type")
+	}
+}
+
+// ---- C06-T2: a float is converted to an integer in the value order only inside the integer's range.
+//
+// int64(f) / uint64(f) for an f outside the target range is implementation-defined in Go (on
+// amd64 it yields MinInt64 / 2^63).  If the value order compares through such a conversion, one
+// particular float (2^63, 2^64) is ordered inconsistently with its neighbours and the order is
+// not transitive.  float64(math.MaxInt64) is 2^63 - so a guard `f > math.MaxInt64` does not keep
+// 2^63 out.  The rule collects, for every float->integer conversion in compareNumbers and the
+// same-package functions it calls, the constant bounds on the dominating branch edges and
+// requires  lo <= f  and  f < 2^63 (2^64 for unsigned)  to follow from them.
+func runOrderFloatToIntInRange(c *Ctx, rule string) {
+	p := c.P
+	c.Rule(rule, "every float-to-integer conversion in expr.compareNumbers and the same-package functions it calls is dominated by constant range tests that imply the float lies inside the integer type's range (strictly below 2^63 / 2^64: float64(MaxInt64) is 2^63 itself); an out-of-range conversion is implementation-defined and orders that one float inconsistently, which breaks transitivity")
+	root := p.Func("runtime/sam/expr.compareNumbers")
+	if root == nil {
+		c.Undecided(rule, "runtime/sam/expr.compareNumbers", "anchor does not resolve")
+		return
+	}
+	scope := reachableStatic([]*ssa.Function{root}, func(f *ssa.Function) bool {
+		return p.PkgOf(f) == "runtime/sam/expr" && f.Origin() == nil
+	})
+	var fns []*ssa.Function
+	for f := range scope {
+		fns = append(fns, f)
+	}
+	sort.Slice(fns, func(i, j int) bool { return fns[i].String() < fns[j].String() })
+	n := 0
+	for _, fn := range fns {
+		for _, b := range fn.Blocks {
+			for _, in := range b.Instrs {
+				cv, ok := in.(*ssa.Convert)
+				if !ok {
+					continue
+				}
+				from, ok1 := cv.X.Type().Underlying().(*types.Basic)
+				to, ok2 := cv.Type().Underlying().(*types.Basic)
+				if !ok1 || !ok2 || from.Info()&types.IsFloat == 0 || to.Info()&types.IsInteger == 0 {
+					continue
+				}
+				n++
+				construct := constructName(fn) + " converts a float to " + to.Name()
+				hiLimit, loLimit := 9223372036854775808.0, -9223372036854775808.0
+				if to.Info()&types.IsUnsigned != 0 {
+					hiLimit, loLimit = 18446744073709551616.0, 0
+				}
+				if to.Kind() != types.Int64 && to.Kind() != types.Uint64 && to.Kind() != types.Int && to.Kind() != types.Uint && to.Kind() != types.Uintptr {
+					c.Fail(rule, construct, cv.Pos(), "conversion of a float to a narrow integer type in the value order")
+					continue
+				}
+				// the float and what it was derived from monotonically (Trunc/Floor/Ceil keep an in-range value in range)
+				base := map[ssa.Value]bool{}
+				var addBase func(v ssa.Value)
+				addBase = func(v ssa.Value) {
+					if base[v] {
+						return
+					}
+					base[v] = true
+					if call, ok := v.(*ssa.Call); ok {
+						switch calleeName(call.Common()) {
+						case "math.Trunc", "math.Floor", "math.Ceil", "math.Round":
+							addBase(call.Common().Args[0])
+						}
+					}
+				}
+				addBase(cv.X)
+				hiOK, loOK := false, false
+				for _, blk := range fn.Blocks {
+					if len(blk.Instrs) == 0 {
+						continue
+					}
+					iff, ok := blk.Instrs[len(blk.Instrs)-1].(*ssa.If)
+					if !ok {
+						continue
+					}
+					cmp, ok := iff.Cond.(*ssa.BinOp)
+					if !ok {
+						continue
+					}
+					var k float64
+					op := cmp.Op
+					switch {
+					case base[cmp.X] && isFloatConst(cmp.Y, &k):
+					case base[cmp.Y] && isFloatConst(cmp.X, &k):
+						// K op f  ==  f op' K
+						switch op {
+						case token.LSS:
+							op = token.GTR
+						case token.LEQ:
+							op = token.GEQ
+						case token.GTR:
+							op = token.LSS
+						case token.GEQ:
+							op = token.LEQ
+						}
+					default:
+						continue
+					}
+					for ei, succ := range blk.Succs {
+						if len(succ.Preds) != 1 || !succ.Dominates(cv.Block()) {
+							continue
+						}
+						eop := op
+						if ei == 1 { // false edge: negate (NaN makes every comparison false; a NaN operand must be excluded separately and does not concern the range)
+							switch op {
+							case token.LSS:
+								eop = token.GEQ
+							case token.LEQ:
+								eop = token.GTR
+							case token.GTR:
+								eop = token.LEQ
+							case token.GEQ:
+								eop = token.LSS
+							default:
+								continue
+							}
+						}
+						switch eop {
+						case token.LSS:
+							if k <= hiLimit {
+								hiOK = true
+							}
+						case token.LEQ:
+							if k < hiLimit {
+								hiOK = true
+							}
+						case token.GEQ, token.GTR:
+							if k >= loLimit {
+								loOK = true
+							}
+						}
+					}
+				}
+				switch {
+				case hiOK && loOK:
+					c.OK(rule, construct, cv.Pos(), "dominated by constant tests implying the target range")
+				case !hiOK:
+					c.Fail(rule, construct, cv.Pos(), "no dominating test implies the float is strictly below 2^"+map[bool]string{true: "64", false: "63"}[to.Info()&types.IsUnsigned != 0]+" (a test against float64(math.MaxInt64)/MaxUint64 with > lets exactly 2^63/2^64 through): the conversion is out of range for that float, which is then ordered below every integer while above smaller floats - the value order is not transitive")
+				default:
+					c.Fail(rule, construct, cv.Pos(), "no dominating test implies the float is at or above the target type's minimum")
+				}
+			}
+		}
+	}
+	c.OK(rule, "float-to-integer conversions in the numeric value order", root.Pos(), sprint(n)+" conversions found in "+sprint(len(fns))+" functions")
+}
+
+func isFloatConst(v ssa.Value, out *float64) bool {
+	k, ok := v.(*ssa.Const)
+	if !ok || k.Value == nil {
+		return false
+	}
+	b, ok := k.Type().Underlying().(*types.Basic)
+	if !ok || b.Info()&types.IsFloat == 0 {
+		return false
+	}
+	*out = k.Float64()
+	return true
+}
+
+// ---- C09-V1: a vector handed downstream shares no slice with the operator's reusable state.
+//
+// Runtime vectors are immutable by contract: a downstream operator may hold a vector across
+// later Pulls (tail, fork/combine, a spilling sort).  If an operator of the vector runtime
+// builds a vector over a slice it keeps in one of its own fields and rewrites on the next Pull
+// (`f.index = append(f.index[:0], ...)`), the earlier vector changes under its holder.  The rule
+// is a forward flow over the vector operators: a slice loaded from a field of the operator that
+// a non-constructor method stores to, followed through reslices, append, phis and same-package
+// functions that return what they were given, must not reach a constructor of package vector
+// (directly or through a same-package function that passes its parameter on to one).
+func runVamVectorsOwnTheirSlices(c *Ctx, rule string) {
+	p := c.P
+	c.Rule(rule, "in the vector runtime's operators (runtime/vam/op) no slice kept in a field that a Pull-time method rewrites reaches a constructor of package vector, directly or through same-package helpers: vectors handed downstream stay immutable while the operator reuses its buffers")
+	fns := p.FuncsIn("runtime/vam/op")
+	if len(fns) < 10 {
+		c.Undecided(rule, "runtime/vam/op", "fewer than ten functions resolved")
+		return
+	}
+	// fields (by *types.Var) stored to outside constructors
+	mutable := map[*types.Var]bool{}
+	for _, fn := range fns {
+		if fn.Signature.Recv() == nil && fn.Parent() == nil {
+			continue // plain functions (constructors New*)
+		}
+		for _, b := range fn.Blocks {
+			for _, in := range b.Instrs {
+				if st, ok := in.(*ssa.Store); ok {
+					if fa, ok := st.Addr.(*ssa.FieldAddr); ok {
+						if _, isSlice := st.Val.Type().Underlying().(*types.Slice); isSlice {
+							mutable[fieldVarOf(fa)] = true
+						}
+					}
+				}
+			}
+		}
+	}
+	// summary: parameter i of g is handed to a vector constructor / returned
+	type key struct {
+		f *ssa.Function
+		i int
+	}
+	sinksParam := map[key]bool{}
+	returnsParam := map[key]bool{}
+	isVectorCtor := func(cc *ssa.CallCommon) bool {
+		f := cc.StaticCallee()
+		return f != nil && f.Pkg != nil && rel(f.Pkg.Pkg.Path()) == "vector" && strings.HasPrefix(f.Name(), "New")
+	}
+	// flow computes what a set of seed values reaches inside fn
+	flow := func(fn *ssa.Function, seeds []ssa.Value, onSink func(ssa.Instruction, string), onReturn func()) {
+		seen := map[ssa.Value]bool{}
+		var work []ssa.Value
+		push := func(v ssa.Value) {
+			if !seen[v] {
+				seen[v] = true
+				work = append(work, v)
+			}
+		}
+		for _, s := range seeds {
+			push(s)
+		}
+		for len(work) > 0 {
+			v := work[len(work)-1]
+			work = work[:len(work)-1]
+			if v.Referrers() == nil {
+				continue
+			}
+			for _, r := range *v.Referrers() {
+				switch x := r.(type) {
+				case *ssa.Slice:
+					if x.X == v {
+						push(x)
+					}
+				case *ssa.Phi:
+					push(x)
+				case *ssa.Return:
+					if onReturn != nil {
+						onReturn()
+					}
+				case *ssa.Store:
+					// stored into a local and re-loaded
+					if a, ok := x.Addr.(*ssa.Alloc); ok && x.Val == v {
+						for _, ar := range *a.Referrers() {
+							if l, ok := ar.(*ssa.UnOp); ok && l.Op == token.MUL {
+								push(l)
+							}
+						}
+					}
+				case *ssa.Call:
+					cc := x.Common()
+					if bi, ok := cc.Value.(*ssa.Builtin); ok {
+						if bi.Name() == "append" && len(cc.Args) > 0 && cc.Args[0] == v {
+							push(x) // may share the backing array
+						}
+						continue
+					}
+					for i, a := range cc.Args {
+						if a != v {
+							continue
+						}
+						if isVectorCtor(cc) {
+							onSink(x, calleeName(cc))
+							continue
+						}
+						if g := cc.StaticCallee(); g != nil && p.PkgOf(g) == "runtime/vam/op" {
+							if sinksParam[key{g, i}] {
+								onSink(x, calleeName(cc))
+							}
+							if returnsParam[key{g, i}] {
+								push(x)
+							}
+						}
+					}
+				}
+			}
+		}
+	}
+	for changed := true; changed; {
+		changed = false
+		for _, g := range fns {
+			for i, prm := range g.Params {
+				if _, isSlice := prm.Type().Underlying().(*types.Slice); !isSlice {
+					continue
+				}
+				k := key{g, i}
+				s, r := sinksParam[k], returnsParam[k]
+				flow(g, []ssa.Value{prm}, func(ssa.Instruction, string) { s = true }, func() { r = true })
+				if s != sinksParam[k] || r != returnsParam[k] {
+					sinksParam[k], returnsParam[k] = s, r
+					changed = true
+				}
+			}
+		}
+	}
+	n := 0
+	for _, fn := range fns {
+		var seeds []ssa.Value
+		for _, b := range fn.Blocks {
+			for _, in := range b.Instrs {
+				if l, ok := in.(*ssa.UnOp); ok && l.Op == token.MUL {
+					if fa, ok := l.X.(*ssa.FieldAddr); ok && mutable[fieldVarOf(fa)] {
+						seeds = append(seeds, l)
+					}
+				}
+			}
+		}
+		if len(seeds) == 0 {
+			continue
+		}
+		n += len(seeds)
+		flow(fn, seeds, func(at ssa.Instruction, callee string) {
+			c.Fail(rule, constructName(fn)+" hands operator state to "+callee, at.Pos(), "a slice kept in a field of the operator (and rewritten by a later Pull) becomes part of a vector handed downstream: a consumer that still holds the earlier vector (tail, fork, a spilling sort) sees its rows change, so the vector runtime's result differs from the sequential runtime's")
+		}, nil)
+	}
+	nm := 0
+	for range mutable {
+		nm++
+	}
+	c.OK(rule, "operator state vs vector constructors", token.NoPos, sprint(nm)+" reusable slice fields, "+sprint(n)+" loads followed, "+sprint(len(fns))+" functions")
+}
+
+func fieldVarOf(fa *ssa.FieldAddr) *types.Var {
+	t := fa.X.Type()
+	if pt, ok := t.Underlying().(*types.Pointer); ok {
+		t = pt.Elem()
+	}
+	st, ok := t.Underlying().(*types.Struct)
+	if !ok {
+		return nil
+	}
+	return st.Field(fa.Field)
+}
+
+// ---- C02-L1: the ZSON lexer decodes a rune from its refillable buffer only after asking for a whole one.
+//
+// zson.Lexer reads its input in chunks; l.cursor may end in the middle of a multi-byte rune
+// (at a 64 KiB boundary, or wherever a pipe delivers a short read).  utf8.DecodeRune on such a
+// prefix yields RuneError/1, so an unquoted non-ASCII field, type or enum name that the
+// formatter wrote fails to parse back.  Every DecodeRune over the cursor must therefore be
+// preceded, on every path from the function's entry, by utf8.FullRune on the cursor or by a
+// fill/check request of at least utf8.UTFMax bytes.
+func runLexerDecodesWholeRunes(c *Ctx, rule string) {
+	p := c.P
+	c.Rule(rule, "in the methods of zson.Lexer every utf8.DecodeRune over the refillable cursor is preceded on every path by utf8.FullRune(cursor) or by a fill/check request for at least utf8.UTFMax bytes: a read boundary inside a multi-byte rune never yields a truncated rune")
+	n := 0
+	for _, fn := range p.FuncsIn("zson") {
+		if fn.Signature.Recv() == nil || namedOf(fn.Signature.Recv().Type()) != "zson.Lexer" {
+			continue
+		}
+		for _, ci := range allCalls(fn) {
+			if calleeName(ci.Common()) != "unicode/utf8.DecodeRune" {
+				continue
+			}
+			fromCursor := dependsOn(ci.Common().Args[0], func(v ssa.Value) bool {
+				l, ok := v.(*ssa.UnOp)
+				if !ok || l.Op != token.MUL {
+					return false
+				}
+				fa, ok := l.X.(*ssa.FieldAddr)
+				return ok && fieldVarOf(fa) != nil && fieldVarOf(fa).Name() == "cursor"
+			})
+			if !fromCursor {
+				continue
+			}
+			n++
+			construct := fnName(fn) + " decodes a rune from the cursor"
+			asksWhole := func(x ssa.Instruction) bool {
+				call, ok := x.(ssa.CallInstruction)
+				if !ok {
+					return false
+				}
+				switch calleeName(call.Common()) {
+				case "unicode/utf8.FullRune":
+					return true
+				case "(*zson.Lexer).fill", "(*zson.Lexer).check":
+					args := call.Common().Args
+					return dependsOn(args[len(args)-1], func(v ssa.Value) bool {
+						k, ok := v.(*ssa.Const)
+						return ok && k.Value != nil && k.Value.Kind() == constant.Int && k.Int64() >= 4
+					})
+				}
+				return false
+			}
+			target := ci.(ssa.Instruction)
+			if hit := reachAvoiding(fn, nil, asksWhole, func(x ssa.Instruction) bool { return x == target }); hit != nil {
+				c.Fail(rule, construct, ci.Pos(), "a path from the entry of "+fnName(fn)+" reaches utf8.DecodeRune over the cursor without utf8.FullRune or a request for utf8.UTFMax bytes: when a read ends inside a multi-byte rune (byte 65536 of a long value sequence, a short read from a pipe) the lexer sees RuneError, and text the formatter wrote with an unquoted non-ASCII name does not parse back")
+			} else {
+				c.OK(rule, construct, ci.Pos(), "every path asks for a whole rune first")
+			}
+		}
+	}
+	if n < 2 {
+		c.Undecided(rule, "zson.Lexer rune decoding", "fewer than two DecodeRune sites over the cursor found ("+sprint(n)+")")
+	}
+}
+
+// ---- C04-F3: a scan filter hands every caller its own evaluator / buffer filter.
+//
+// zbuf.Filter.AsEvaluator and AsBufferFilter are called once per scanner worker *because* the
+// objects they return carry per-call mutable state (FieldNameFinder's checked-ID set, evaluator
+// scratch).  An implementation that memoises the compiled object and returns the same instance to
+// every worker makes the workers race on that state: frames of ZNG input read with several
+// threads are dropped while the same data as ZSON (or with one thread) gives the full result.
+func runFilterInstancesArePrivate(c *Ctx, rule string) {
+	p := c.P
+	c.Rule(rule, "every implementation of zbuf.Filter.AsEvaluator / AsBufferFilter returns an object built in that call: the returned value never comes from a field of the receiver (a memo shared by all scanner workers)")
+	iface, _ := p.Type("zbuf", "Filter").(*types.Named)
+	if iface == nil {
+		c.Undecided(rule, "zbuf.Filter", "anchor type does not resolve")
+		return
+	}
+	it, _ := iface.Underlying().(*types.Interface)
+	n := 0
+	for _, fn := range p.Funcs {
+		if fn.Parent() != nil || fn.Signature.Recv() == nil || fn.Blocks == nil {
+			continue
+		}
+		if fn.Name() != "AsEvaluator" && fn.Name() != "AsBufferFilter" {
+			continue
+		}
+		if it == nil || !types.Implements(fn.Signature.Recv().Type(), it) {
+			continue
+		}
+		if strings.HasSuffix(p.Pos(fn.Pos()), "_test.go") {
+			continue
+		}
+		n++
+		resT := fn.Signature.Results().At(0).Type()
+		recv := fn.Params[0]
+		bad := false
+		for _, b := range fn.Blocks {
+			for _, in := range b.Instrs {
+				ret, ok := in.(*ssa.Return)
+				if !ok {
+					continue
+				}
+				v := returnOperand(ret, 0)
+				if dependsOn(v, func(x ssa.Value) bool {
+					l, ok := x.(*ssa.UnOp)
+					if !ok || l.Op != token.MUL {
+						return false
+					}
+					fa, ok := l.X.(*ssa.FieldAddr)
+					return ok && types.Identical(fa.X.Type(), recv.Type()) && types.Identical(l.Type(), resT)
+				}) {
+					bad = true
+					c.Fail(rule, fnName(fn)+" returns a memoised instance", ret.Pos(), "the object returned comes from a field of the filter, so every scanner worker gets the same instance; buffer filters and evaluators carry per-call state (FieldNameFinder.checkedIDs), so with reader threads > 1 a worker skips the field names of a type another worker already marked and drops its frame - ZNG input loses rows that ZSON input (or one thread) returns")
+				}
+			}
+		}
+		if !bad {
+			c.OK(rule, fnName(fn), fn.Pos(), "the result is built in the call")
+		}
+	}
+	if n < 4 {
+		c.Undecided(rule, "zbuf.Filter implementers", "fewer than four AsEvaluator/AsBufferFilter methods found ("+sprint(n)+")")
+	}
 }
